@@ -79,6 +79,7 @@ class Obj:
         self.f = {}
         self.id = Obj.n
         self.freed = None    # set by the poisoning model of free(): any later access is a use after free
+        self.limit = None    # opt-in element count of an array object: accesses outside [0, limit) are out-of-bounds outcomes
     def __repr__(self): return '<%s>' % self.label
 
 
@@ -391,6 +392,8 @@ class Interp:
     def assign(self, obj, path, v, q=None):
         if obj.freed is not None:
             raise Terminal('use-after-free', 'write to %r, released at %s' % (obj, obj.freed))
+        if obj.limit is not None and path and isinstance(path[0], int) and not 0 <= path[0] < obj.limit:
+            raise Terminal('out-of-bounds', 'write to element %d of %r (%d elements)' % (path[0], obj, obj.limit))
         if obj.kind == 'str' and not getattr(obj, 'writable', False):
             raise Unsupported('write to string literal')
         if obj.kind == 'symstr' and len(path) == 1 and isinstance(v, int):
@@ -420,6 +423,8 @@ class Interp:
     def load(self, obj, path, q=None):
         if obj.freed is not None:
             raise Terminal('use-after-free', 'read of %r, released at %s' % (obj, obj.freed))
+        if obj.limit is not None and path and isinstance(path[0], int) and not 0 <= path[0] < obj.limit:
+            raise Terminal('out-of-bounds', 'read of element %d of %r (%d elements)' % (path[0], obj, obj.limit))
         f = obj.f
         if path in f:
             v = f[path]
